@@ -23,7 +23,7 @@ ALG = ("algorithms/mod.rs", "algorithms/myers.rs", "algorithms/lcs.rs", "algorit
 PIPE = ("algorithms/compact.rs", "algorithms/replace.rs", "algorithms/capture.rs", "common.rs", "types.rs")
 A_ALL = ["A1", "A2", "A3", "A4", "A5", "A7", "A8", "A9", "A10", "A11"]
 # The tokenizer rules: every property that reads tokens back as text depends on them.
-TOKENIZER = ["F7", "F11", "F12", "F20", "F21"]
+TOKENIZER = ["F7", "F11", "F12", "F20", "F21", "F24"]
 # Rules that are necessary for the captured op list to be a valid edit script at all; every property that reads text
 # back out of the ops (C04 reconstruction, C05 hunks, C17 remapping) depends on them.
 SCRIPT_VALID = ["E1", "E2", "E3", "G3", "G5", "G6", "G7", "B5", "F1", "F5", "F13"]
@@ -79,7 +79,7 @@ PROPERTIES = {
     },
     "C05": {
         "level": "other",
-        "rules": ["D1", "F8", "F10", "G2", "F7"] + SCRIPT_VALID + a_rules(("udiff.rs", "types.rs")),
+        "rules": ["D1", "F8", "F10", "G2", "G8", "F25", "F7"] + SCRIPT_VALID + a_rules(("udiff.rs", "types.rs", "text/mod.rs", "common.rs")),
         "explanation": "Decided: no lossy decoding is reachable from the byte writers and each line is written with "
                        "write_all(as_bytes(value)) (D1: call graph incl. fmt::Display edges); Display and to_writer emit the "
                        "same (guard, template) sequence incl. header-once and missing-newline logic (F8); hunk header extents "
@@ -148,7 +148,7 @@ PROPERTIES = {
     },
     "C12": {
         "level": "other",
-        "rules": ["G8"] + a_rules(("common.rs",), ["A4", "A5", "A7", "A9"]),
+        "rules": ["G8", "F25", ("B4", infile("algorithms/capture.rs"))] + a_rules(("common.rs",), ["A4", "A5", "A7", "A9"]),
         "explanation": "Decided (one clause only): 'contain every non-Equal op exactly once, unchanged and in order'.  In "
                        "group_diff_ops every DiffOp that is constructed and every op field that is written in place belongs to "
                        "an Equal op; everything pushed into a group is the iterated op itself or a freshly cut Equal piece; "
@@ -189,7 +189,7 @@ PROPERTIES = {
     },
     "C16": {
         "level": "other",
-        "rules": ["F9", ("F4", infile("text/inline.rs")), ("C1", infile("text/inline.rs", "text/mod.rs"))] +
+        "rules": ["F9", "F26", ("F4", infile("text/inline.rs")), ("C1", infile("text/inline.rs", "text/mod.rs"))] +
                  a_rules(("text/inline.rs",), A_ALL + ["A6"]) + TOKENIZER + [("A6", infile("text/abstraction.rs"))],
         "explanation": "Decided: tags/indices of assembled InlineChanges (F4, A4), side consistency of lookup/push_values use "
                        "(A3), byte-unit discipline of MultiLookup (A6), deadline plumbing of the inline diff (C1), emphasis only "
@@ -207,7 +207,7 @@ PROPERTIES = {
     },
     "C20": {
         "level": "other",
-        "rules": ["D2", "D3", "D4", "F6", "F14", "C5", "F2"] + TOKENIZER,
+        "rules": ["D2", "D3", "D4", "F6", "F14", "C5", "F2"] + TOKENIZER + a_rules(("text/mod.rs",), ["A3", "A4"]),
         "explanation": "Decided: the only order-sensitive hash iteration is sorted before use (D2); no clock/thread/env/"
                        "random/address dependence outside the deadline probe (D3, C5); items are only compared with ==/!= and "
                        "hashed, never ordered or formatted (D4: relabelling invariance); str and [u8] tokenizers classify "
